@@ -9,13 +9,13 @@ export CARGO_NET_OFFLINE=true
 OUT=/verif/seeded/$SID; mkdir -p $OUT
 cp $PATCH $OUT/patch.diff; cp $WT/tests/$DEMO.rs $OUT/ 2>/dev/null
 cd $WT && git checkout -q -- . 
-base_suite=$(cargo test --offline --features oracle,serde --lib 2>&1 | grep -c "test result: ok")
-base_demo=$(cargo test --offline --features oracle,serde --test $DEMO 2>&1 | grep -c "test result: ok")
+base_suite=$(cargo test --offline --features ${FEATURES:-oracle,serde} --lib 2>&1 | grep -c "test result: ok")
+base_demo=$(cargo test --offline --features ${FEATURES:-oracle,serde} --test $DEMO 2>&1 | grep -c "test result: ok")
 git apply $PATCH || { echo "patch does not apply"; exit 2; }
-mut_suite=$(cargo test --offline --features oracle,serde --lib 2>&1 | grep -c "test result: ok")
+mut_suite=$(cargo test --offline --features ${FEATURES:-oracle,serde} --lib 2>&1 | grep -c "test result: ok")
 mut_suite_def=$(cargo test --offline --lib 2>&1 | grep -c "test result: ok")
-mut_doc=$(cargo test --offline --features oracle,serde --doc 2>&1 | grep -c "test result: ok")
-mut_demo=$(cargo test --offline --features oracle,serde --test $DEMO 2>&1 | grep -c "test result: FAILED")
+mut_doc=$(cargo test --offline --features ${FEATURES:-oracle,serde} --doc 2>&1 | grep -c "test result: ok")
+mut_demo=$(cargo test --offline --features ${FEATURES:-oracle,serde} --test $DEMO 2>&1 | grep -c "test result: FAILED")
 git checkout -q -- .
 echo "confirm: base_suite_ok=$base_suite base_demo_ok=$base_demo mut_suite_ok=$mut_suite mut_suite_default_ok=$mut_suite_def mut_doc_ok=$mut_doc mut_demo_failed=$mut_demo"
 cd /verif
@@ -33,7 +33,7 @@ python3 - <<PY
 import json
 meta={"seed_id":"$SID","property":"$PID","worktree_confirmation":{"baseline_suite_ok":$base_suite>0,"baseline_demo_ok":$base_demo>0,
  "mutated_suite_ok":$mut_suite>0 and $mut_suite_def>0,"mutated_doctests_ok":$mut_doc>0,"mutated_demo_fails":$mut_demo>0},
- "ran":["cargo test --offline [--features oracle,serde] --lib/--doc/--test $DEMO in the scratch worktree, with and without the patch",
+ "ran":["cargo test --offline [--features ${FEATURES:-oracle,serde}] --lib/--doc/--test $DEMO in the scratch worktree, with and without the patch",
         "git -C /repo apply patch.diff; ./check $PID (quick) $*; git -C /repo checkout -- ."],
  "check_exit_codes":{k:int(v) for k,v in [x.split('=') for x in "$(for k in "${!RES[@]}"; do echo -n "$k=${RES[$k]} "; done)".split()]}}
 json.dump(meta,open("$OUT/meta.json","w"),indent=1)
